@@ -68,10 +68,15 @@ def run_slices(ctx, prop):
         names += [n for n in THOROUGH_EXTRA.get(prop, []) if n not in names]
     tlc.sany(ctx.work, "MC_LokyExecutor")
     d17 = None
+    taken = {}
     for n in names:
         cfg = write_cfg(ctx.work, n)
-        res = tlc.check(ctx.work, "MC_LokyExecutor", cfg, workers=16, timeout=3000, coverage=False, heap="12g")
+        res = tlc.check(ctx.work, "MC_LokyExecutor", cfg, workers=16, timeout=3000, coverage=(prop == "C01"), heap="12g")
         ctx.add_tlc(res, "LokyExecutor.tla slice %s (switches = code as it is)" % n)
+        if prop == "C01":
+            # vacuity guard: which labelled steps of the specification are never taken by any slice of this run
+            for a, (dd, tt) in res.coverage.items():
+                taken[a] = taken.get(a, 0) + tt
         if res.violation:
             cancels = res.trace[-1][1].get("cancels", 0) if res.trace else 0
             if res.violation[0] == "deadlock" and cancels > 0 and CODE_SWITCHES["CancelWakes"] == "FALSE":
@@ -85,6 +90,9 @@ def run_slices(ctx, prop):
             else:
                 raise runner.Machinery("LokyExecutor.tla slice %s: TLC reports %s (spec-level): last state %s" % (
                     n, res.violation, repr(res.trace[-1][1])[:1500] if res.trace else ""))
+    if taken:
+        ctx.extra["spec_actions_taken"] = len([a for a, t in taken.items() if t > 0])
+        ctx.extra["spec_actions_never_taken"] = sorted(a for a, t in taken.items() if t == 0)
     # non-vacuity of the exemption for open findings: their windows must be reachable in the slices that have a crash budget
     if prop == "C02" or ctx.tier == "thorough":
         for n in [x for x in names if SLICES[x][4] > 0][:2]:
